@@ -90,6 +90,9 @@ class Exec:
             if o.ty[0] != "ref":
                 raise Unsupported(f"attribute {e.attr} on {o.ty} (line {e.lineno})")
             cls = o.ty[1]
+            if e.attr == "__class__":
+                out.append((s1, V(("class",), CLASS_OF(o.term))))
+                continue
             if self.src.is_property(cls, e.attr):
                 c, fn = self.src.method(cls, e.attr)
                 out += self.call_function(fn, c, [o], {}, s1, d + 1)
@@ -294,6 +297,9 @@ class Exec:
             st.assume(z3.ForAll([y], z3.Select(newmem, y) == z3.Or(st.mem(l.term, y), st.mem(r.term, y))))
             st.set_mem(res.term, newmem)
             st.set_heapok(res.term, z3.FreshConst(z3.BoolSort(), "cat_heapok"))
+            nd = z3.FreshConst(z3.BoolSort(), "cat_nodup")
+            st.assume(nd == z3.And(st.nodup(l.term), st.nodup(r.term), z3.ForAll([y], z3.Not(z3.And(st.mem(l.term, y), st.mem(r.term, y))))))
+            st.set_nodup(res.term, nd)
         return res
 
     def ev_BoolOp(self, e, st, d):
@@ -402,6 +408,8 @@ class Exec:
         if lo[0] == "class" and ro[0] == "class":
             if l.py is not None and r.py is not None:
                 return [(st, z3.BoolVal(l.py == r.py))]
+            if l.term is not None and r.term is not None:
+                return [(st, l.term == r.term)]
             raise Unsupported("class comparison on symbolic classes")
         if lo[0] in ("list", "dict") and ro[0] == lo[0]:
             raise Unsupported("structural == on collections")
